@@ -247,6 +247,12 @@ func (t *State) verifySignatures(tx *pb.Transaction, digestHash []byte) (bool, m
 			verifiedAddr[addr] = true
 			initiatorAddr = append(initiatorAddr, tx.Initiator+"/"+addr)
 		}
+		// an account without rule on the chain was never created: nobody can act as it (IdentifyAccount
+		// would treat the missing rule as "everyone could pass"; verifyUTXOPermission guards likewise)
+		if acl, err := t.queryAccountACL(tx.Initiator); err != nil || acl == nil {
+			t.log.Warn("verifySignatures failed, initiator account might not exist", "account", tx.Initiator, "error", err)
+			return false, nil, ErrInvalidAccount
+		}
 		ok, err := aclu.IdentifyAccount(t.sctx.AclMgr, tx.Initiator, initiatorAddr)
 		if !ok {
 			t.log.Warn("verifySignatures initiator permission check failed",
